@@ -9,6 +9,12 @@ CHECKS = {
     text='Machine-checked proof (Lean 4 kernel) that the executable model of isCellMLReal / isCellMLInteger / isCellMLBasicReal accepts exactly the grammar of the statement and that every accepted text satisfies the precondition of std::stod / std::stoi (conversion never throws).  The model is tied to /repo on every run by an exhaustive differential run of the real functions (all strings up to length 4 (quick) / 5 (thorough) over 17 symbols) plus seeded long strings, and an independent grammar oracle is evaluated on the implementation answers.',
     note='Trusted: Lean kernel (axioms propext, Classical.choice, Quot.sound); the harness hx_num.cpp and driver engine; std::stod/stoi modelled by precondition and exact range test (rounding at the edge of the double range not modelled); printing of doubles (%.15g read-back) not yet covered.',
     design='4 C16'),
+ 'C15': dict(
+    engine='logger',
+    technique='Lean 4 proof: logger index-vector invariant by induction over operation histories (removeError iff), finite tables by kernel decide; model tied by replaying hook-traced operations of every service call',
+    text='Machine-checked proof that the model of LoggerImpl (issue vector + three index vectors, operations exactly as in logger.cpp) is coherent after every history whose removals are tail removals, that removeError keeps coherence iff it erases the last issue, and that coherence gives the count identity, in-order enumeration by error(i)/warning(i)/message(i) and null past the end; kernel decide over tables regenerated from issue.h/issue.cpp/enums.* shows every ReferenceRule and element-type value has a row.  Tie: hook H1 reports every logger operation of every traced Parser/Validator/Importer/Printer/Analyser/Annotator call on the repository test resources (plus truncated/mutated copies); the model replays the trace and all observers are compared; each issue is audited and each failing result must be explained on the implementation.',
+    note='Trusted: Lean kernel; hook H1 and hx_logger.cpp; regex table extractor gen/tables.py.  The service failure paths themselves are not modelled in Lean (the explained-failure clause is decided by the implementation-side oracle on the traced calls only); issues are abstracted to their level in the model.  One known finding (assignAllIds(null)).',
+    design='4 C15'),
 }
 
 def manifest():
@@ -37,7 +43,8 @@ def manifest():
                    enable='each check configures /repo into a scratch dir with -DCMAKE_CXX_FLAGS=-DLIBCELLML_VERIF (vlib/common.py: build_lib) and links harness/hx_*.cpp against the static library',
                    baseline_off_cmd='python3 tools/baseline_off.py',
                    source_commits=hooks['source_commits'], add_only=True),
-        engines=[dict(name='num', path='harness/hx_num.cpp + lean/Cellml/Engine/Num.lean', serves_properties=['C16'], kind_free_text='differential: real recognisers vs Lean model, exhaustive short strings')],
+        engines=[dict(name='logger', path='harness/hx_logger.cpp + lean/Cellml/Engine/Logger.lean', serves_properties=['C15'], kind_free_text='trace replay: hook-traced logger operations of real service calls vs Lean logger model'),
+                 dict(name='num', path='harness/hx_num.cpp + lean/Cellml/Engine/Num.lean', serves_properties=['C16'], kind_free_text='differential: real recognisers vs Lean model, exhaustive short strings')],
         checks=checks,
         notes='Technique family: machine-checked proof in Lean 4.  ./check Cxx = regenerate tables from /repo, lake build of Props/Cxx.lean (kernel), axiom audit, rebuild of /repo + harness, correspondence run, implementation-side oracle.  See DESIGN.md.',
         not_applicable=na)
